@@ -1,7 +1,7 @@
 from .model import SCHEMA, Spec
-from . import c_dimension
+from . import c_dimension, c_prefix
 
 CONTRACTS = {}
-for _m in (c_dimension,):
+for _m in (c_dimension, c_prefix):
     CONTRACTS.update(_m.CONTRACTS)
 SPEC = Spec()
